@@ -505,7 +505,15 @@ impl<I: Hash + Eq, A: Hash + Eq> Game<I, A> {
                     1 => Ok(outcomes.pop().unwrap()),
                     _ => {
                         // renormalize to make sure consistency
-                        let total: f64 = probs.iter().sum();
+                        let mut total: f64 = probs.iter().sum();
+                        if !total.is_finite() {
+                            // the weights are finite but their sum overflowed: rescale first
+                            let max = probs.iter().copied().fold(0.0, f64::max);
+                            for prob in &mut probs {
+                                *prob /= max;
+                            }
+                            total = probs.iter().sum();
+                        }
                         for prob in &mut probs {
                             *prob /= total;
                         }
